@@ -3,6 +3,7 @@ sys.path.insert(0, "/verif")
 from pyvc import verify as VF, run as R
 import checker; checker.load_contracts()
 names = [a for a in sys.argv[1:] if not a.startswith('-')]
+PROP = ([a[2:] for a in sys.argv[1:] if a.startswith('-p')] or [None])[0]
 for key, cls in VF.CONTRACTS.items():
     if names and not any(n in key[1] for n in names):
         continue
@@ -10,7 +11,7 @@ for key, cls in VF.CONTRACTS.items():
         continue
     v = VF.Verifier("/repo/middleware")
     t0 = time.time()
-    res = R.verify_contract(v, cls)
+    res = R.verify_contract(v, cls, prop=PROP)
     print("==", key, res["status"], res["error"], res["stats"], "%.1fs" % (time.time() - t0))
     import collections
     print("   ", dict(collections.Counter(ob.result.verdict for ob in res["obligations"])))
